@@ -175,7 +175,9 @@ func runSortAfterAddress(c *Ctx, rule string) {
 			n++
 			bad := ""
 			for _, t := range takes[fld] {
-				if t.phase < s.phase || (t.phase == s.phase && t.in.Parent() == s.in.Parent() && instrBefore(t.in, s.in)) {
+				// in the same function: the address can be taken before the sort runs (it need not be taken on every
+				// path: a loop body that runs zero times for an empty collection does not dominate what follows it)
+				if t.phase < s.phase || (t.phase == s.phase && t.in.Parent() == s.in.Parent() && (instrBefore(t.in, s.in) || (t.in.Block() != s.in.Block() && canReach(t.in.Block(), s.in.Block())))) {
 					bad = p.ipos(t.in)
 				}
 			}
